@@ -228,12 +228,12 @@ Definition condition_obj (ty st reason msg : string) : json :=
         (if String.eqb reason "" then [] else [("reason", JStr reason)]) ++
         (if String.eqb msg "" then [] else [("message", JStr msg)])).
 
-(* SetCondition(status, cond): Err when status.conditions exists and is not a list.
+(* SetCondition(status, cond): Err when status.conditions exists and is not a list (an explicit null included).
    A nil status map becomes a fresh one. *)
 Definition set_condition (status : json) (ty : string) (cond : json) : option json :=
   let m := obj_or_nil status in
   match alookup "conditions" m with
-  | None | Some JNull => Some (JObj (aset "conditions" (JArr [cond]) m))
+  | None => Some (JObj (aset "conditions" (JArr [cond]) m))
   | Some (JArr l) =>
       if existsb (fun it => match it with JObj im => match jget "type" im with JStr t => String.eqb t ty | _ => false end | _ => false end) l
       then Some (JObj (aset "conditions"
